@@ -8,7 +8,7 @@ Local Open Scope Z_scope.
 (* ------------------------------------------------------------------ forward stage scanner *)
 
 Lemma do_action_newpos inp cap r m out pm o p np :
-  do_action inp cap r m out pm = (o, p, Some np) -> np = m_er m \/ np = m_end m.
+  do_action inp cap r m out pm = (o, p, Some np) -> np = m_er m \/ np = Z.max (m_er m) (m_end m).
 Proof.
   unfold do_action.
   destruct (copy_chars inp cap out pm (m_start m) (m_sr m)) as [[out1 pm1]|]; [|discriminate].
